@@ -2,7 +2,7 @@
 (the registry is filtered by property id)."""
 PROPS = {
     'C01': ['mpgverif.harness.c01_stage1'],
-    'C02': ['mpgverif.harness.c01_stage1'],
+    'C02': ['mpgverif.harness.c01_stage1', 'mpgverif.harness.c07_wrapper'],
     'C15': ['mpgverif.harness.c15_fusion'],
     'C05': ['mpgverif.harness.kernel_vpd'],
     'C09': ['mpgverif.harness.kernel_vpd', 'mpgverif.harness.c09_sect'],
@@ -18,6 +18,6 @@ PROPS = {
     'C11': ['mpgverif.harness.c11_coords', 'mpgverif.harness.c11_gene', 'mpgverif.harness.c11_ondisk'],
     'C12': ['mpgverif.harness.c12_index'],
     'C04': ['mpgverif.harness.callvariant_loop', 'mpgverif.harness.c12_index', 'mpgverif.harness.kernel_vpd'],
-    'C06': ['mpgverif.harness.callvariant_loop', 'mpgverif.harness.c12_index'],
+    'C06': ['mpgverif.harness.callvariant_loop', 'mpgverif.harness.c12_index', 'mpgverif.harness.c13_gvf'],
     'C07': ['mpgverif.harness.callvariant_loop', 'mpgverif.harness.c07_wrapper', 'mpgverif.harness.c07_parser_loops'],
 }
